@@ -67,13 +67,13 @@ func checkC03(c *Ctx, w *World) {
 	// guards
 	// UpdateClientConnState → newSubConnLocked: only for an emptied pool
 	for _, call := range pl.callsIn(uccs, nsl) {
-		cs := newCondSpace(uccs, recOf(eqAtom("poolEmpty", lenOfField("gcpBalancer.scRefs"), constIs(0))), "poolEmpty")
+		cs := newCondSpace(uccs, recOf(lenZeroAtom("poolEmpty", lenOfField("gcpBalancer.scRefs"))), "poolEmpty")
 		imp, wit := cs.Implies(cs.Reach(call), cs.Atom("poolEmpty"))
 		c.check(imp, "C03.create", "UpdateClientConnState → newSubConnLocked: guard", p.ipos(call), "resolver update creates a connection only when the pool is empty", "resolver update can add a connection to a non-empty pool: "+wit)
 	}
 	// getSubConnRoundRobin → newSubConn: only for an empty list
 	for _, call := range pl.callsIn(rr, ns) {
-		cs := newCondSpace(rr, recOf(eqAtom("listEmpty", lenOfField("gcpBalancer.scRefList"), constIs(0))), "listEmpty")
+		cs := newCondSpace(rr, recOf(lenZeroAtom("listEmpty", lenOfField("gcpBalancer.scRefList"))), "listEmpty")
 		imp, wit := cs.Implies(cs.Reach(call), cs.Atom("listEmpty"))
 		c.check(imp, "C03.create", "getSubConnRoundRobin → newSubConn: guard", p.ipos(call), "round-robin pick creates a connection only when no channel was ever created", "round-robin pick can grow a non-empty pool: "+wit)
 	}
